@@ -102,7 +102,7 @@ inline size_t nparams(Target t) {
   switch (t) {
   case T_HEX: return 1;       // lensel 0..7
   case T_PARSENUM: return 6;  // type 0..12, mode 0..2, base 0..36, flags 0..3, mnsel 0..15, mxsel 0..15
-  case T_GETOPT: return 2;    // table 0..1, opterr 0..1 (raw form: opterr always 0)
+  case T_GETOPT: return 3;    // table 0..1, opterr 0..1 (raw form: opterr always 0), abandon selector 0..15
   default: return 0;
   }
 }
@@ -146,6 +146,7 @@ inline Args decode(Target t, const uint8_t *data, size_t size) {
   case T_GETOPT:
     a.p.push_back(f.ConsumeIntegralInRange<uint8_t>(0, 1));
     a.p.push_back(0);
+    a.p.push_back(f.ConsumeIntegralInRange<uint8_t>(0, 15));
     a.s = split_nul(f.ConsumeRemainingBytesAsString());
     break;
   default:
@@ -180,6 +181,7 @@ inline std::string encode(Target t, const Args &a) {
       if (i) r.push_back('\0');
       r += cut_nul(a.s[i]);
     }
+    r.push_back(pb(2));
     r.push_back(pb(0));
     break;
   default:
@@ -576,7 +578,12 @@ inline Res exec_getopt(const Args &a) {
   argv[argc] = nullptr;
   int nopts = 0, nargs = 0, ndef = 0, oi = 0;
   char msg[SHIM_MSG];
-  int rc = shim_getopt(table, (int)argc, argv, oe, &nopts, &nargs, &ndef, &oi, msg);
+  // one parse in four is abandoned after 1..4 labels (a caller that stops at the first unknown option): the strings are then
+  // freed, and the next parse (next case, same process) starts with optreset = 1 -- stale cursors into the old argv show up as
+  // use-after-free
+  int stop = (a.p.size() > 2 && (a.p[2] & 3) == 0) ? 1 + (int)((a.p[2] >> 2) & 3) : 0;
+  int rc = shim_getopt(table, (int)argc, argv, oe | (stop << 1), &nopts, &nargs, &ndef, &oi, msg);
+  if (stop) r.c("abandoned-mid-parse");
   if (rc != 0) {
     std::string m = std::string("GETOPT table ") + std::to_string(table) + " argv=[";
     for (size_t i = 0; i < argc; i++) m += (i ? "," : "") + hexs(cut_nul(a.s[i]), 16);
